@@ -179,6 +179,21 @@ func (r *Ref) Run(n *Node, k Kind) []string {
 		h.Del(n.Attr("names"))
 	case KStatusMod:
 		r.St.Status = n.AttrInt("statusCode")
+	case KURLMod:
+		// the given parts of the request URL are replaced; later nodes, and the
+		// response of the same exchange, see the rewritten URL
+		if v := n.Attr("scheme"); v != "" {
+			r.St.Scheme = v
+		}
+		if v := n.Attr("host"); v != "" {
+			r.St.Host = v
+		}
+		if v := n.Attr("path"); v != "" {
+			r.St.Path = v
+		}
+		if v := n.Attr("query"); v != "" {
+			r.St.Query = v
+		}
 	case KNoop:
 	default:
 		if IsVerifier(n.Kind) {
